@@ -7,6 +7,7 @@ import (
 	"bufio"
 	"encoding/hex"
 	"fmt"
+	"math/big"
 	"os"
 	"strconv"
 	"strings"
@@ -135,6 +136,121 @@ func execOp(p *prog, t []string) (outcome string, res []string) {
 		v(t[1]).SetMode(decimal.RoundingMode(atoi(t[2])))
 	case "SetInf":
 		v(t[1]).SetInf(t[2] == "1")
+	case "SetInt64":
+		n, err := strconv.ParseInt(t[2], 10, 64)
+		if err != nil {
+			panic("bad int64")
+		}
+		v(t[1]).SetInt64(n)
+	case "SetUint64":
+		v(t[1]).SetUint64(atou(t[2]))
+	case "SetInt":
+		i, ok := new(big.Int).SetString(t[2], 10)
+		if !ok {
+			panic("bad big.Int")
+		}
+		v(t[1]).SetInt(i)
+	case "SetRat":
+		n, ok1 := new(big.Int).SetString(t[2], 10)
+		d, ok2 := new(big.Int).SetString(t[3], 10)
+		if !ok1 || !ok2 {
+			panic("bad big.Rat")
+		}
+		v(t[1]).SetRat(new(big.Rat).SetFrac(n, d))
+	case "NewDecimal":
+		x, err1 := strconv.ParseInt(t[2], 10, 64)
+		e, err2 := strconv.ParseInt(t[3], 10, 64)
+		if err1 != nil || err2 != nil {
+			panic("bad NewDecimal args")
+		}
+		p.vars[atoi(t[1])] = decimal.NewDecimal(x, int(e))
+	case "SetMantExp":
+		e, err := strconv.ParseInt(t[3], 10, 64)
+		if err != nil {
+			panic("bad exp")
+		}
+		v(t[1]).SetMantExp(v(t[2]), int(e))
+	case "MantExp":
+		var m *decimal.Decimal
+		if t[2] != "-" {
+			m = v(t[2])
+		}
+		res = append(res, strconv.Itoa(v(t[1]).MantExp(m)))
+	case "SetBitsExp":
+		e, err := strconv.ParseInt(t[2], 10, 64)
+		if err != nil {
+			panic("bad exp")
+		}
+		n := atoi(t[3])
+		ws := make([]decimal.Word, n)
+		for i := 0; i < n; i++ {
+			ws[i] = decimal.Word(atou(t[4+i]))
+		}
+		v(t[1]).SetBitsExp(ws, e)
+	case "BitsExp":
+		x := v(t[1])
+		ws, e := x.BitsExp()
+		if x.IsZero() || x.IsInf() {
+			e = 0
+		}
+		res = append(res, strconv.Itoa(int(e)), strconv.Itoa(len(ws)))
+		for _, w := range ws {
+			res = append(res, strconv.FormatUint(uint64(w), 10))
+		}
+	case "MinPrec":
+		res = append(res, strconv.FormatUint(uint64(v(t[1]).MinPrec()), 10))
+	case "IsInt":
+		res = append(res, strconv.Itoa(b2i(v(t[1]).IsInt())))
+	case "Int64":
+		i, a := v(t[1]).Int64()
+		res = append(res, strconv.FormatInt(i, 10), strconv.Itoa(int(a)))
+	case "Uint64":
+		u, a := v(t[1]).Uint64()
+		res = append(res, strconv.FormatUint(u, 10), strconv.Itoa(int(a)))
+	case "Int":
+		i, a := v(t[1]).Int(nil)
+		if i == nil {
+			res = append(res, "0", "0", strconv.Itoa(int(a)))
+		} else {
+			res = append(res, "1", i.String(), strconv.Itoa(int(a)))
+		}
+	case "Rat":
+		r, a := v(t[1]).Rat(nil)
+		if r == nil {
+			res = append(res, "0", "0", "1", strconv.Itoa(int(a)))
+		} else {
+			res = append(res, "1", r.Num().String(), r.Denom().String(), strconv.Itoa(int(a)))
+		}
+	case "GobEncode":
+		b, err := v(t[1]).GobEncode()
+		if err != nil {
+			panic(err)
+		}
+		res = append(res, "x:"+hex.EncodeToString(b))
+	case "GobDecode":
+		h := t[2]
+		if h == "-" {
+			h = ""
+		}
+		b, err := hex.DecodeString(h)
+		if err != nil {
+			panic("bad hex")
+		}
+		if err := v(t[1]).GobDecode(b); err != nil {
+			res = append(res, "1")
+		} else {
+			res = append(res, "0")
+		}
+	case "GobRoundTrip":
+		b, err := v(t[2]).GobEncode()
+		if err != nil {
+			panic(err)
+		}
+		if err := v(t[1]).GobDecode(b); err != nil {
+			res = append(res, "1")
+		} else {
+			res = append(res, "0")
+		}
 	default:
 		panic("unknown op " + t[0])
 	}
